@@ -104,15 +104,20 @@ def trl_model_inputs(sc):
     pass
 
 
-def part_trl(ctx, rec, exe, drv, ntrl):
+def part_trl(ctx, rec, exe, drv, ntrl, ntie):
     scs = []
     for typ in G.EIGHT:
         for k in range(ntrl):
             sc = G.build_trl(ctx.rng, "trl_%s_%d" % (typ, k), typ, nf=2, gfrac=0.6, swap=(k % 2 == 1))
-            sc.solve()
-            sc.getparams()
-            G.add_dut(ctx.rng, sc)
             scs.append(sc)
+        for k in range(ntie):
+            # measurements and guesses on a 2^-22 grid: the model is evaluated exactly on the same numbers
+            sc = G.build_trl(ctx.rng, "trltie_%s_%d" % (typ, k), typ, nf=1, gfrac=0.6, swap=(k % 2 == 1), quant=22)
+            scs.append(sc)
+    for sc in scs:
+        sc.solve()
+        sc.getparams()
+        G.add_dut(ctx.rng, sc)
     res = G.run_batch(ctx, exe, scs)
     worst = {"l": 0.0, "r": 0.0, "dut": 0.0}
     model_lines, model_cases = [], []
@@ -124,6 +129,8 @@ def part_trl(ctx, rec, exe, drv, ntrl):
         ctx.count(("trl", sc.sid))
         if s is None:
             continue
+        quant = sc.meta.get("quant")
+        ptol, dtol = (1e-7, 1e-6) if quant is None else (1e-4, 1e-3)     # quantised data are not exact
         if s["rc"] != 0:
             rec.add({"kind": "trl_failed", "type": sc.typ},
                     "analytic TRL solve failed on exact data with guesses on the right side of the root choice (%s)" % sc.typ, sc, r)
@@ -135,8 +142,9 @@ def part_trl(ctx, rec, exe, drv, ntrl):
                 continue
             for f in range(sc.nf):
                 e = abs(got[0][f] - sc.truth[nm][f]) / max(1.0, abs(sc.truth[nm][f]))
-                worst[nm] = max(worst[nm], e)
-                if e > 1e-7:
+                if quant is None:
+                    worst[nm] = max(worst[nm], e)
+                if e > ptol:
                     rec.add({"kind": "trl_wrong_root", "param": nm, "type": sc.typ},
                             "TRL: solved %s = %s differs from the truth %s (guess %s closer to the truth than to the other root)"
                             % (nm, got[0][f], sc.truth[nm][f], sc.guess[nm][f]), sc, r)
@@ -144,17 +152,16 @@ def part_trl(ctx, rec, exe, drv, ntrl):
         if de is None:
             rec.add({"kind": "apply_failed", "where": "trl"}, "vnacal_apply_m failed after a successful TRL solve", sc, r)
         else:
-            worst["dut"] = max(worst["dut"], de)
-            if de > 1e-6:
+            if quant is None:
+                worst["dut"] = max(worst["dut"], de)
+            if de > dtol:
                 rec.add({"kind": "dut_error", "where": "trl", "type": sc.typ},
                         "TRL calibration does not correct a device: error %.3g" % de, sc, r)
+        if quant is None:
+            continue
         # model tie: the solver's view of the measurements (leakage removed as documented)
         for f in range(sc.nf):
-            t = [[0, 1], [1, 0]]
-            lt, rt = sc.truth["l"][f], sc.truth["r"][f]
-            mt = sc.em.measure(t, f)
-            mr = sc.em.measure([[rt, 0], [0, rt]], f)
-            ml = sc.em.measure([[0, lt], [lt, 0]], f)
+            mt, mr, ml = sc.trl_meas["T"][f], sc.trl_meas["R"][f], sc.trl_meas["L"][f]
             if sc.typ in ("TE10", "UE10"):
                 l12, l21 = mr[0][1], mr[1][0]
                 mt = [[mt[0][0], mt[0][1] - l12], [mt[1][0] - l21, mt[1][1]]]
@@ -163,15 +170,20 @@ def part_trl(ctx, rec, exe, drv, ntrl):
             a = (ml[0][1] * mt[1][0] + ml[1][0] * mt[0][1]) / 2.0
             b = (ml[0][0] - mt[0][0]) * (ml[1][1] - mt[1][1]) - ml[0][1] * ml[1][0] - mt[0][1] * mt[1][0]
             disc = b * b - 4.0 * a * a
+            # only to prepare the csqrt oracle for the second equation: the root of the first one
+            # nearer to the guess
+            uu, vv = -b / (2.0 * a), cmath.sqrt(disc) / (2.0 * a)
+            lt = min((uu + vv, uu - vv), key=lambda z: abs(z - sc.guess["l"][f]))
             n = ((ml[1][0] * mt[0][1] - lt * ((mr[0][0] - mt[0][0]) * (mt[1][1] - ml[1][1]) + mt[0][1] * mt[1][0])) *
                  (ml[0][1] * mt[1][0] - lt * ((mr[1][1] - mt[1][1]) * (mt[0][0] - ml[0][0]) + mt[0][1] * mt[1][0])))
             d = ((ml[0][1] * (mr[0][0] - mt[0][0]) - lt * mt[0][1] * (mr[0][0] - ml[0][0])) *
                  (ml[1][0] * (mr[1][1] - mt[1][1]) - lt * mt[1][0] * (mr[1][1] - ml[1][1])))
             nd = n / d
+            q = lambda z: G.quantise(z, 30)         # the csqrt oracle: argument / root pairs, short rationals
             flat = lambda m: " ".join(cfrac(m[i][j]) for i in range(2) for j in range(2))
             model_lines.append("trl %s %s %s %s %s %s %s %s %s" % (
                 flat(mt), flat(mr), flat(ml), cfrac(sc.guess["l"][f]), cfrac(sc.guess["r"][f]),
-                cfrac(disc), cfrac(cmath.sqrt(disc)), cfrac(nd), cfrac(cmath.sqrt(nd))))
+                cfrac(q(disc)), cfrac(q(cmath.sqrt(disc))), cfrac(q(nd)), cfrac(q(cmath.sqrt(nd)))))
             model_cases.append((sc, r, f))
     ctx.extra["trl_worst_relative_error"] = worst
     # run the extracted model
@@ -190,7 +202,7 @@ def part_trl(ctx, rec, exe, drv, ntrl):
                 continue
             cl, cr = got["l"][0][f], got["r"][0][f]
             ctx.traces_validated += 1
-            if abs(ml_ - cl) > 1e-8 * max(1, abs(cl)) or abs(mr_ - cr) > 1e-8 * max(1, abs(cr)):
+            if abs(ml_ - cl) > 1e-6 * max(1, abs(cl)) or abs(mr_ - cr) > 1e-6 * max(1, abs(cr)):
                 nbad += 1
                 if nbad == 1:
                     detail = "%s f=%d: model (l, r) = (%s, %s), C = (%s, %s)" % (sc.sid, f, ml_, mr_, cl, cr)
@@ -341,6 +353,10 @@ def part_auto_tie(ctx, rec, wb, drv, ncases):
         sc.cmd("ptol %s" % G.fnum(tol))
         sc.cmd("ettol %s" % G.fnum(tol))
         sc.cmd("itlimit %d" % limit)
+        if k % 2 == 1:
+            # with measurement-error weighting the iteration regularly rejects steps
+            sc.cmd("merror 1 - 1e-4 1e-3")
+            sc.meta["merror"] = True
         sc.cmd("wb 0 1 0")
         sc.solve()
         scs.append(sc)
@@ -433,6 +449,8 @@ def part_auto_tie(ctx, rec, wb, drv, ncases):
                         why = "pass %d: lambda model %r, C %r" % (i, me[2], ce[2])
                         break
             ctx.traces_validated += 1
+            ctx.sample({"scenario": sc.sid, "meta": sc.meta, "passes": len(c_ents), "outcome": c_tag,
+                        "trajectory(best,multiplier,lambda,converged)": c_ents[:6]})
             if why and bad is None:
                 bad = (sc, why, run)
     if bad:
@@ -559,12 +577,19 @@ def run(ctx):
     wb = G.build_wb(ctx)
     drv = ctx.ocaml_driver("drv_selfcal")
 
-    trl_ok, trl_detail = part_trl(ctx, rec, exe, drv, 12 if quick else 150)
+    ctx.log("built; TRL")
+    trl_ok, trl_detail = part_trl(ctx, rec, exe, drv, 12 if quick else 150, 3 if quick else 12)
+    ctx.log("LM unweighted")
     st_u = part_lm(ctx, rec, exe, None)
+    ctx.log("LM weighted", st_u)
     st_w = part_lm(ctx, rec, exe, "merror 1 - 1e-4 1e-3")
+    ctx.log("limits", st_w)
     part_limits(ctx, rec, exe, 6 if quick else 40)
+    ctx.log("auto tie")
     auto_ok = part_auto_tie(ctx, rec, wb, drv, 30 if quick else 300)
+    ctx.log("directed")
     part_directed(ctx, rec, exe)
+    ctx.log("done")
 
     # support: convergence rate of the unweighted iteration from the stated radius
     if st_u["runs"]:
